@@ -124,7 +124,7 @@ static Outcome execute_unit(const Case& c) {
 #endif
 
 #ifdef C17_CONV2D
-// key: conv2d | B,C,O,groups | H,W | kh,kw | sh,sw | ph,pw | dh,dw | bias(0/1),form(0 = per-axis lists, 1 = scalar int arguments)
+// key: conv2d | B,C,O,groups | H,W | kh,kw | sh,sw | ph,pw | dh,dw | bias(0/1),form(0 = per-axis lists, 1 = scalar int arguments, 2..5 see the end of enumerate_unit)
 static const long KERNELS[7][2] = {{1, 1}, {2, 2}, {3, 3}, {1, 2}, {2, 1}, {1, 3}, {3, 1}};
 static void enumerate_unit(const nmc::Tier& t, const nmc::Sink& emit) {
     bool T = t.thorough();
@@ -174,6 +174,21 @@ static void enumerate_unit(const nmc::Tier& t, const nmc::Sink& emit) {
     // quick tier: a small per-axis sub-grid as well (every (sh,sw,ph,pw,dh,dw) with unequal entries on three input sizes) - a seeded change that swapped the
     // per-axis STRIDE order was invisible to a quick tier that only used equal per-axis arguments
     else { grid(1, 1, 1, 1, 3, 4, true, 1, false); grid(1, 1, 1, 1, 4, 3, true, 1, false); grid(1, 2, 2, 2, 5, 5, true, 2, false); }
+    // the remaining call FORMS (both tiers, a small grid: H,W in 2..3, four kernels):
+    //   form 2: every optional argument omitted - conv2d(x, w) / conv2d(x, w, bias) (stride 1, padding 0, dilation 1, groups 1)
+    //   form 3: groups as a COMPILE-TIME constant (1 or 2), per-axis list arguments
+    //   form 4: mixed kinds - scalar stride, padding None (= 0), dilation as a list
+    //   form 5: scalar (int) arguments WITH a bias (form 1 is bias-less)
+    for (long H = 2; H <= 3; H++) for (long W = 2; W <= 3; W++) for (int ki = 0; ki < 4; ki++) {
+        long kh = KERNELS[ki == 3 ? 4 : ki == 2 ? 3 : ki][0], kw = KERNELS[ki == 3 ? 4 : ki == 2 ? 3 : ki][1];
+        if (kh > H || kw > W) continue;
+        for (long bias = 0; bias <= 1; bias++) {
+            emit(Case("conv2d", {{1, 2, 2, 1}, {H, W}, {kh, kw}, {1, 1}, {0, 0}, {1, 1}, {bias, 2}}));
+            for (long g = 1; g <= 2; g++) for (long st = 1; st <= 2; st++) for (long pd = 0; pd <= 1; pd++) emit(Case("conv2d", {{1, 2, 2, g}, {H, W}, {kh, kw}, {st, st}, {pd, pd}, {1, 1}, {bias, 3}}));
+            for (long st = 1; st <= 2; st++) for (long dl = 1; dl <= 2; dl++) { if (ref::conv_out_extent(H, kh, st, 0, dl) <= 0 || ref::conv_out_extent(W, kw, st, 0, dl) <= 0) continue; emit(Case("conv2d", {{1, 2, 2, 1}, {H, W}, {kh, kw}, {st, st}, {0, 0}, {dl, dl}, {bias, 4}})); }
+        }
+        for (long st = 1; st <= 2; st++) for (long pd = 0; pd <= 1; pd++) emit(Case("conv2d", {{1, 2, 2, 2}, {H, W}, {kh, kw}, {st, st}, {pd, pd}, {1, 1}, {1, 5}}));
+    }
 }
 static Outcome execute_unit(const Case& c) {
     long B = c.a[0][0], C = c.a[0][1], O = c.a[0][2], g = c.a[0][3]; int G = (int)g; bool bias = c.a[6][0] != 0; long form = c.a[6][1];
@@ -187,7 +202,19 @@ static Outcome execute_unit(const Case& c) {
         if (bias) return both(view::conv2d(X, W, Bi, s, p, d, G), na::conv2d(X, W, Bi, s, p, d, G), want, nt);
         return both(view::conv2d(X, W, None, s, p, d, G), na::conv2d(X, W, None, s, p, d, G), want, nt);
     }
+    if (form == 2) { if (bias) return both(view::conv2d(X, W, Bi), na::conv2d(X, W, Bi), want, nt); return both(view::conv2d(X, W), na::conv2d(X, W), want, nt); }
+    if (form == 3) {
+        il s = to_il(c.a[3]), p = to_il(c.a[4]), d = to_il(c.a[5]);
+        auto go = [&](auto cg) -> Outcome { if (bias) return both(view::conv2d(X, W, Bi, s, p, d, cg), na::conv2d(X, W, Bi, s, p, d, cg), want, nt); return both(view::conv2d(X, W, None, s, p, d, cg), na::conv2d(X, W, None, s, p, d, cg), want, nt); };
+        if (g == 1) return go(meta::ct_v<1>); return go(meta::ct_v<2>);
+    }
+    if (form == 4) {
+        int s = (int)c.a[3][0]; il d = to_il(c.a[5]);
+        if (bias) return both(view::conv2d(X, W, Bi, s, None, d), na::conv2d(X, W, Bi, s, None, d), want, nt);
+        return both(view::conv2d(X, W, None, s, None, d), na::conv2d(X, W, None, s, None, d), want, nt);
+    }
     int s = (int)c.a[3][0], p = (int)c.a[4][0], d = (int)c.a[5][0];
+    if (form == 5) return both(view::conv2d(X, W, Bi, s, p, d, G), na::conv2d(X, W, Bi, s, p, d, G), want, nt);
     return both(view::conv2d(X, W, None, s, p, d, G), na::conv2d(X, W, None, s, p, d, G), want, nt);
 }
 #endif
@@ -232,6 +259,8 @@ static void enumerate_unit(const nmc::Tier& t, const nmc::Sink& emit) {
             L s(lead); s.push_back(H); s.push_back(W);
             emit(Case("maxpool", {s, {kh, kw}, {sh, sw}, {ceil}}));
             emit(Case("avgpool", {s, {kh, kw}, {sh, sw}, {ceil}}));
+            // the other argument kinds: ceil_mode as a COMPILE-TIME constant (nm::True / nm::False: a separate resolver branch) and kernel / stride as fixed arrays
+            if (lead.empty() && H <= 5 && W <= 5) { emit(Case("maxpool", {s, {kh, kw}, {sh, sw}, {ceil, 1}})); emit(Case("avgpool", {s, {kh, kw}, {sh, sw}, {ceil, 1}})); }
         }
 }
 // adds the ceil_mode diagnosis to a shape failure: which formula the observed shape follows, and how many observed
@@ -254,6 +283,14 @@ static Outcome execute_unit(const Case& c) {
     bool nt = want->size() >= 2 || std::min(k[0], s[s.size() - 2]) * std::min(k[1], s[s.size() - 1]) >= 2;
     il K = to_il(k), S = to_il(st);
     Outcome r;
+    if (c.a[3].size() > 1) {   // compile-time ceil_mode, fixed-array kernel / stride
+        nmtools_array<int, 2> KA{(int)k[0], (int)k[1]}, SA{(int)st[0], (int)st[1]};
+        auto go = [&](auto cm) -> Outcome {
+            if (is_max) { auto X = make_arr<long>(x); return both(view::max_pool2d(X, KA, SA, cm), na::max_pool2d(X, KA, SA, cm), want, nt); }
+            auto X = make_arr<double>(x); return both(view::avg_pool2d(X, KA, SA, cm), na::avg_pool2d(X, KA, SA, cm), want, nt, 1e-5);
+        };
+        if (ceil) return go(nm::True); return go(nm::False);
+    }
     if (is_max) { auto X = make_arr<long>(x); const auto v = view::max_pool2d(X, K, S, ceil); Obs ov = nmc::observe(v); r = both(v, na::max_pool2d(X, K, S, ceil), want, nt); if (!r.fail.empty()) r.fail += pool_shape_note(ov, x, k, st, ceil); }
     else { auto X = make_arr<double>(x); const auto v = view::avg_pool2d(X, K, S, ceil); Obs ov = nmc::observe(v); r = both(v, na::avg_pool2d(X, K, S, ceil), want, nt, 1e-5); if (!r.fail.empty()) r.fail += pool_shape_note(ov, x, k, st, ceil); }
     return r;
@@ -284,6 +321,8 @@ static void enumerate_unit(const nmc::Tier& t, const nmc::Sink& emit) {
     nmc::each_shape_range(1, 4, e, [&](const L& s) {
         long d = (long)s.size();
         for (long a = -d; a < d; a++) for (long dt = 0; dt <= 2; dt++) { emit(Case("softmax", {s, {a}, {dt}})); emit(Case("softmin", {s, {a}, {dt}})); }
+        // the axis as a COMPILE-TIME constant (0 and -1; double data)
+        for (long a : {0L, -1L}) { emit(Case("softmax", {s, {a}, {0, 1}})); emit(Case("softmin", {s, {a}, {0, 1}})); }
     });
 }
 template <typename T> static Outcome run_softmax(bool neg, const RArr& x, int axis, const ROpt& want, bool nt, double rtol) {
@@ -299,6 +338,12 @@ static Outcome execute_unit(const Case& c) {
     ROpt want = neg ? ref::softmin(x, axis) : ref::softmax(x, axis);
     if (!want) return Outcome::bad("wrong", "harness: case outside the domain was enumerated");
     long ax = axis < 0 ? axis + (long)s.size() : axis; bool nt = s[(size_t)ax] >= 2;
+    if (c.a[2].size() > 1) {
+        using namespace nmtools::literals;
+        auto X = make_arr<double>(x);
+        auto go = [&](auto ct_axis) -> Outcome { if (neg) return both(view::softmin(X, ct_axis), na::softmin(X, ct_axis), want, nt, 1e-9); return both(view::softmax(X, ct_axis), na::softmax(X, ct_axis), want, nt, 1e-9); };
+        if (axis == 0) return go(0_ct); return go("-1"_ct);
+    }
     if (dt == 0) return run_softmax<double>(neg, x, (int)axis, want, nt, 1e-9);
     if (dt == 1) return run_softmax<float>(neg, x, (int)axis, want, nt, 1e-5);
     return run_softmax<long>(neg, x, (int)axis, want, nt, 1e-5);
@@ -336,7 +381,7 @@ static void enumerate_unit(const nmc::Tier& t, const nmc::Sink& emit) {
     // group_norm: N 1..2, C 1..6 (4 quick) with every divisor as num_groups, trailing extents 1..3
     long Cmax = t.thorough() ? 6 : 4;
     for (long N = 1; N <= 2; N++) for (long C = 1; C <= Cmax; C++) for (long g = 1; g <= C; g++) if (divides(g, C))
-        for (int extra = 0; extra <= 2; extra++) nmc::each_shape(extra, 3, [&](const L& sp) { L s{N, C}; for (long v : sp) s.push_back(v); emit(Case("group_norm", {s, {g}})); emit(Case("group_norm", {s, {g}, {1}})); });
+        for (int extra = 0; extra <= 2; extra++) nmc::each_shape(extra, 3, [&](const L& sp) { L s{N, C}; for (long v : sp) s.push_back(v); emit(Case("group_norm", {s, {g}})); emit(Case("group_norm", {s, {g}, {1}})); if (g <= 2) emit(Case("group_norm", {s, {g}, {2}})); });   // {2}: num_groups as a compile-time constant
 #endif
 }
 static const double EPS_DEFAULT = (double)1e-5f;   // the routines' default argument is float{1e-5}
@@ -384,11 +429,12 @@ static Outcome execute_unit(const Case& c) {
 #else
     if (c.op == "group_norm") {
         long C = s[1], g = c.a[1][0]; RArr w = values({C}, 2, 1), b = values({C}, 101, 7);
-        const bool xeps = c.a.size() > 2;
+        const bool xeps = c.a.size() > 2 && c.a[2][0] == 1; const bool ctg = c.a.size() > 2 && c.a[2][0] == 2;
         ROpt want = ref::group_norm(x, g, w, b, xeps ? 0.5 : EPS_DEFAULT);
         auto W = make_arr<double>(w), Bi = make_arr<double>(b); int G = (int)g;
         L sp(s.begin() + 2, s.end()); bool nt = (C / g) * nmc::prod(sp) >= 2;
         if (xeps) return both(view::group_norm(X, G, W, Bi, 0.5), na::group_norm(X, G, W, Bi, 0.5), want, nt, 1e-9);
+        if (ctg) { if (g == 1) return both(view::group_norm(X, meta::ct_v<1>, W, Bi), na::group_norm(X, meta::ct_v<1>, W, Bi), want, nt, 1e-9); return both(view::group_norm(X, meta::ct_v<2>, W, Bi), na::group_norm(X, meta::ct_v<2>, W, Bi), want, nt, 1e-9); }
         return both(view::group_norm(X, G, W, Bi), na::group_norm(X, G, W, Bi), want, nt, 1e-9);
     }
 #endif
@@ -441,6 +487,8 @@ static void enumerate_unit(const nmc::Tier& t, const nmc::Sink& emit) {
             // the same with an explicit eps = 10 that is ABOVE some of the norms along the axis: the clamp max(||x||, eps) per operand becomes observable
             // (seeded change m17c clamped the product of the norms once; with the default eps and ordinary data no clamp is ever active)
             for (long a = -d; a < d; a++) { emit(Case("cosine_similarity", {s, p, {a, 1}})); if (p != s) emit(Case("cosine_similarity", {p, s, {a, 1}})); }
+            // the DEFAULT axis (argument omitted: the compile-time constant 1) and an explicit compile-time -1
+            if (d >= 2) { emit(Case("cosine_similarity", {s, p, {1, 2}})); emit(Case("cosine_similarity", {s, p, {-1, 3}})); }
         }
     });
     for (int ld = 0; ld <= 2; ld++) nmc::each_shape(ld, 3, [&](const L& lead) {
@@ -490,6 +538,8 @@ static Outcome execute_unit(const Case& c) {
         if (!want) return Outcome::bad("wrong", "harness: case outside the domain was enumerated");
         auto bs = ref::broadcast_shapes({sa, sb}); long d = (long)bs->size(); long ax = axis < 0 ? axis + d : axis;
         if (big_eps) return both(view::cosine_similarity(A, Bm, axis, 10.0), na::cosine_similarity(A, Bm, axis, 10.0), want, (*bs)[(size_t)ax] >= 2, 1e-9);
+        if (c.a[2].size() > 1 && c.a[2][1] == 2) return both(view::cosine_similarity(A, Bm), na::cosine_similarity(A, Bm), want, (*bs)[(size_t)ax] >= 2, 1e-9);
+        if (c.a[2].size() > 1 && c.a[2][1] == 3) return both(view::cosine_similarity(A, Bm, meta::ct_v<-1>), na::cosine_similarity(A, Bm, meta::ct_v<-1>), want, (*bs)[(size_t)ax] >= 2, 1e-9);
         return both(view::cosine_similarity(A, Bm, axis), na::cosine_similarity(A, Bm, axis), want, (*bs)[(size_t)ax] >= 2, 1e-9);
     }
     nmc::die("unknown op");
